@@ -9,18 +9,27 @@
 (* into an extra state "{}" (deviation TF_EmptyPlaceholderKept).               *)
 EXTENDS DfaUniverse
 CONSTANT KeepEmptyPlaceholders
-VARIABLES D, ord, table, pc
-vars == <<D, ord, table, pc>>
+VARIABLES D, ord, table, pc, stage
+vars == <<D, ord, table, pc, stage>>
 
 n == Cardinality(Q)
 Pairs == {<<i, j>> \in (1..n) \X (1..n) : i <= j}
 Idx(q) == CHOOSE i \in 1..n : ord[i] = q
 Lo(k, m) == <<Min2(k, m), Max2(k, m)>>
 
-Init == /\ D \in AllDfas
-        /\ ord \in {f \in [1..n -> Q] : \A i, j \in 1..n : i # j => f[i] # f[j]}
-        /\ table = [p \in Pairs |-> (ord[p[1]] \in D.F) = (ord[p[2]] \in D.F)]
-        /\ pc = "sweep"
+Orders == {f \in [1..n -> Q] : \A i, j \in 1..n : i # j => f[i] # f[j]}
+Init == /\ D = DummyDfa /\ stage = 0 /\ pc = "pick"
+        /\ ord = CHOOSE f \in Orders : TRUE
+        /\ table = [p \in Pairs |-> TRUE]
+PickF == /\ stage = 0 /\ stage' = 1
+         /\ \E F \in SUBSET Q : D' = [DummyDfa EXCEPT !.F = F]
+         /\ ord' \in Orders
+         /\ UNCHANGED <<table, pc>>
+PickD == /\ stage = 1 /\ stage' = 2
+         /\ D' \in DfasWithF(D.F)
+         /\ table' = [p \in Pairs |-> (ord[p[1]] \in D.F) = (ord[p[2]] \in D.F)]
+         /\ pc' = "sweep"
+         /\ UNCHANGED ord
 
 (* the strict pairs in the order of itertools.combinations(range(n), 2) *)
 RECURSIVE PairList(_, _)
@@ -40,9 +49,9 @@ Sweep == /\ pc = "sweep"
          /\ LET t2 == SweepFrom(table, PairList(1, 2))
             IN /\ table' = t2
                /\ pc' = IF t2 = table THEN "assemble" ELSE "sweep"
-         /\ UNCHANGED <<D, ord>>
+         /\ UNCHANGED <<D, ord, stage>>
 
-Next == Sweep
+Next == PickF \/ PickD \/ Sweep
 Spec == Init /\ [][Next]_vars /\ WF_vars(Next)
 
 (* dfa_from_table *)
@@ -60,9 +69,9 @@ M == [Q |-> {Qlist[i] : i \in Used}, S |-> S,
       q0 |-> BlockWith(D.q0), F |-> {Qlist[i] : i \in {i \in Used : ord[i] \in D.F}}, eps |-> "~none~"]
 
 Done == pc = "assemble"
-TableSound == \A p \in Pairs : StatesEquivalent(D, ord[p[1]], ord[p[2]]) => table[p]
+TableSound == stage = 2 => \A p \in Pairs : StatesEquivalent(D, ord[p[1]], ord[p[2]]) => table[p]
 DoneTableExact == Done => \A p \in Pairs : table[p] <=> StatesEquivalent(D, ord[p[1]], ord[p[2]])
 DoneResultOk == Done => ResultOk(D, M)
-InputUnchanged == [][D' = D]_vars
+InputUnchanged == [][stage = 2 => D' = D]_vars
 Terminates == <>Done
 =============================================================================
